@@ -275,7 +275,7 @@ PROPS['C11'] = {
                                              'lemma_blayout_tail_ok', 'lemma_last_tlv', 'theorem_builder_wellformed', 'theorem_guarded_builder_parses']}],
     'kx': ['k11_builder_queries_small'],
     'bx': ['c11'],
-    'technique': 'Verus contracts on the four guard functions of the real MessageBuilder (add_attribute, add_raw_attribute, add_message_integrity, add_fingerprint) over an abstract type list, with the two iterator-adaptor query helpers and the two sealing workers under assumed contracts; bounded stand-in (exhaustive operation sequences over the sealing alphabet + random programs on the real MessageBuilder against the ordering rules of the statement) for everything assumed',
+    'technique': 'Verus contracts on the four guard functions of the real MessageBuilder (add_attribute, add_raw_attribute, add_message_integrity, add_fingerprint) and their sealing workers over an abstract type list, with the two iterator-adaptor query helpers under assumed contracts; the ordering grammar as a preserved invariant and the theorem that a builder obeying it is accepted by the parser; bounded stand-in (exhaustive operation sequences over the sealing alphabet + random programs on the real MessageBuilder against the ordering rules of the statement) for everything assumed',
     'rule': 'see engines.bx[0].rule',
     'proved': ['(unit builder) add_attribute / add_raw_attribute: Err <==> the type is already present or the builder holds MESSAGE-INTEGRITY, MESSAGE-INTEGRITY-SHA256 or FINGERPRINT; on Err the whole builder is unchanged; on Ok exactly that attribute is appended to both the attribute list and the type list (representation invariant: the type list the queries answer from describes the attribute list that is serialised)',
                '(unit builder) add_message_integrity: SHA-1 refused <==> MI, MI-SHA256 or FINGERPRINT present; SHA-256 refused <==> MI-SHA256 or FINGERPRINT present; refused => builder unchanged; accepted => one attribute of that type appended',
@@ -283,7 +283,6 @@ PROPS['C11'] = {
                '(unit builder) [C11.order] Message::builder starts with, and add_attribute / add_raw_attribute / add_message_integrity / add_fingerprint (and their workers) preserve, the ordering grammar `ord()` of the attribute list (only sealing attributes after an integrity attribute, nothing after FINGERPRINT, no repeated sealing attribute, values within the 16-bit field); theorem_guarded_builder_parses: a builder with `ord()` whose FINGERPRINT (if any) has the value add_fingerprint appends serialises (write_into, proved) to bytes satisfying wf_message, i.e. the parser (unit parse: Ok <==> wf_message) accepts it',
                'the documented panics of add_attribute/add_raw_attribute (integrity/fingerprint types passed directly) are preconditions; under them the panic!/unreachable arms are proved unreachable'],
     'bounded': ['has_attribute / has_any_attribute (iterator adaptors any/find over SmallVec): assumed contracts in VX (contains / first element among the given types), exercised by BX on every builder state (C11:query-vs-serialisation) and checked by Kani on builders of three symbolic types (k11_builder_queries_small, thorough tier, bounded)',
-                'add_message_integrity_unchecked / add_fingerprint_unchecked append exactly one attribute of the respective type: assumed in VX, BX compares the serialisation',
                 'whole-sequence behaviour: BX, exhaustive for sequences up to length 5 (quick) / 6 (thorough) over {typed, raw, SHA-1, SHA-256, fingerprint}, random programs up to length 7 with into_owned/clone/duplicates'],
     'trusted': _BX_TRUST + ['smallvec::SmallVec stand-in (push appends; clone preserves the sequence)', 'mirror of trait AttributeWrite without its supertrait (get_type only)'],
 }
@@ -308,15 +307,15 @@ for _p in ('C01', 'C02', 'C05', 'C06', 'C07', 'C08', 'C09', 'C10', 'C12', 'C13',
 LEVEL_TEXT = {
  'C01': "Proof: Verus discharges every index/slice/arithmetic/unwrap/unreachable/termination obligation of the decoding entry points (whole message, header, type, raw attribute, 14 typed decoders, iterator, validate_integrity) for ALL byte strings, with precondition `true` on the bytes (representation invariant wf_message for methods on an accepted message); Kani covers the remaining 5 typed decoders completely. Formatting, policing and tracing-subscriber clauses are outside both verifiers and are run by the bounded stand-in (catch_unwind + watchdog), listed as bounded. One known finding (D8) is reported as KNOWN-FINDING.",
  'C02': "Proof: `Message::from_bytes` is verified `Ok <==> wf_message(bytes)` for buffers of every length against a recursive spec predicate written from the statement (not from the code); header fields, the exposed attribute stream (iterator) and the header/declared-length error cases are postconditions; each interior rejection (attribute after integrity / after fingerprint with its type, fingerprint mismatch) is proved to point at a real witness in the buffer (unit parsecause). Lookups through iterator adaptors, and which of several applicable causes is reported, are decided by the bounded differential against an independent reference decoder.",
- 'C03': "Exploration: MessageBuilder::write_into is verified by Verus to write header + padded TLVs of the attribute list in order for lists of any length (per-attribute writers proved under C12), and the spec-level theorem shows that this layout is accepted by the verified parser and has the stated length properties; the sealing workers (HMAC/CRC over build()), byte_len/build (iterator sums), into_owned and typed-value equality for three list-valued types remain a bounded stand-in (random builder programs vs an independent serialiser with independent HMAC/CRC) - hence exploration.",
- 'C04': "Proof: `Message::validate_integrity` is verified for every accepted message and every credential against the RFC 8489 s14.5/14.6 specification (which exposed attribute is checked, HMAC input = prefix with the length field set to the end of that attribute, truncated SHA-256 lengths, MissingAttribute) with HMAC/MD5 as uninterpreted functions. That the hmac/sha crates compute those functions, the key derivation and tamper-evidence on concrete messages are bounded (independent HMAC-SHA1/SHA256/MD5 implementation).",
+ 'C03': "Exploration: the builder side is under Verus contracts - write_into writes header + padded TLVs in order for lists of any length (per-attribute writers proved under C12), every guarded operation keeps the ordering grammar, the sealing workers append the CRC / HMAC of build() with the adjusted length field - and the composition theorems show that these bytes satisfy wf_message (so the verified parser accepts them), have the stated length properties, and expose exactly the builder's attributes in order with their types and value bytes. What remains assumed or bounded: byte_len / build (iterator sums; build = zeroed vector + the proved write_into), the builder query helpers (iterator any/find), the crypto crates, clone(), and typed-value equality where a decoder is outside the verifier (UNKNOWN-ATTRIBUTES) - decided by random builder programs against an independent serialiser with independent HMAC/CRC; hence exploration.",
+ 'C04': "Proof: `Message::validate_integrity` is verified for every accepted message and every credential against the RFC 8489 s14.5/14.6 specification (which exposed attribute is checked, HMAC input = prefix with the length field set to the end of that attribute, truncated SHA-256 lengths, MissingAttribute) with HMAC/MD5 as uninterpreted functions; the builder side (add_message_integrity appends the HMAC of build() with the adjusted length field; the sealed message meets exactly the premises of validate_integrity's Ok clauses) is proved as well. That the hmac/sha crates compute those functions, the key derivation (String concatenation: outside the verifier) and tamper-evidence on concrete messages are bounded (independent HMAC-SHA1/SHA256/MD5 implementation).",
  'C05': "Exploration: whole-view postconditions of send / handle_stun / take_outstanding_request / request_transaction / cancel / StunRequestState::poll and the exactly-once theorem over them are proved by Verus; the one link that is not (StunAgent::poll's `values_mut` loop, which turns a per-request verdict into removal) is decided by the bounded stand-in stepping the real agent against an abstract agent - so the property as a whole is claimed at exploration.",
  'C06': "Exploration: the per-request schedule (StunRequestState::new defaults and poll for schedules of any length and all instants) is proved by Verus; configure_timeout (iterator map/fold over Duration) and the agent-level minimum over transactions are bounded (exhaustive configuration grid driven by on-time polls, random histories with early/exact/late polls at microsecond resolution).",
  'C07': "Proof: handle_stun's postcondition (delivered => outstanding and, if the request was sealed, remote credentials set and validate_integrity Ok; otherwise Drop with the whole abstract state unchanged) and request_had_credentials <=> builder has an integrity attribute are verified by Verus for all inputs; validate_integrity itself is C04. End-to-end with real HMACs is bounded.",
  'C08': "Exploration: decode side proved - 14 typed decoders in Verus for value strings of ANY length (UTF-8 via vstd::utf8), 5 in Kani (complete); encode side proved for to_raw/length of the string types and the in-place writers of 15 types (C12). Still bounded only: UNKNOWN-ATTRIBUTES decoder (chunks_exact: no vstd specification, and the ghost-iterator traits cannot be implemented for a std type from outside vstd), the &str constructors - hence exploration.",
- 'C09': "Proof: an accepted buffer with a FINGERPRINT at offset o satisfies value == crc32(bytes[..o] with length field o+8-20) ^ 0x5354554e and o+8 == len (clause fp_ok of wf_message, verified for all buffers); XOR constant by Kani for all 2^32 values. That Fingerprint::compute is CRC-32/ISO-HDLC, the builder side and the corruption sweeps are bounded.",
+ 'C09': "Proof: an accepted buffer with a FINGERPRINT at offset o satisfies value == crc32(bytes[..o] with length field o+8-20) ^ 0x5354554e and o+8 == len (clause fp_ok of wf_message, verified for all buffers); XOR constant by Kani for all 2^32 values; the builder side (add_fingerprint appends crc32 of build() with the length field + 8, xor the constant; the sealed serialisation satisfies fp_ok and is accepted by the parser) is proved over the assumed contract of build(). That Fingerprint::compute is CRC-32/ISO-HDLC and the corruption sweeps are bounded.",
  'C10': "Proof: the iterator is verified to yield exactly the exposure rule of the statement on every accepted message; the 'hence' clauses (non-sealing exposed attributes lie before the end of the first integrity attribute; prefix stability) are spec-level lemmas; validate_integrity checks an exposed attribute over that prefix (C04). Lookups through `find`/`any` are bounded.",
- 'C11': "Exploration: the four guard functions of the real MessageBuilder are verified by Verus against the ordering rules of the statement (refused exactly when ..., refused => builder unchanged, accepted => appended), but over ASSUMED contracts for the two iterator-adaptor query helpers and the two sealing workers (SmallVec/dyn/HMAC are outside the verifier); those assumptions and the whole-sequence statement are decided by exhaustive operation sequences up to length 5/6 over the sealing alphabet plus random programs on the real builder - hence exploration. That every guarded operation keeps the ordering grammar, and that a builder obeying it serialises to a message the parser accepts, is proved (ord(), theorem_guarded_builder_parses).",
+ 'C11': "Exploration: the four guard functions of the real MessageBuilder are verified by Verus against the ordering rules of the statement (refused exactly when ..., refused => builder unchanged, accepted => appended), but over ASSUMED contracts for the two iterator-adaptor query helpers has_attribute / has_any_attribute (and, for the sealing values, build() and the hmac/crc crates); those assumptions and the whole-sequence statement are also decided by exhaustive operation sequences up to length 5/6 over the sealing alphabet plus random programs on the real builder - hence exploration. That every guarded operation keeps the ordering grammar, and that a builder obeying it serialises to a message the parser accepts, is proved (ord(), theorem_guarded_builder_parses).",
  'C12': "Exploration: for raw attributes and 15 typed attributes the in-place writer, the size guard of write_into and to_bytes are proved equal to the RFC TLV layout for values of any length (Verus), 4 more types by Kani; MessageBuilder::write_into's guard / exact-or-larger / nothing-beyond clauses are proved for attribute lists of any length (Verus). build() vs write_into (iterator sum; vstd has no specification of Iterator::sum and none can be added for a provided trait method) and clone() are bounded - hence exploration.",
  'C13': "Proof: complete Kani harnesses over all IPv4/IPv6 addresses x ports x transaction ids (fixed trip-count loops unwound with assertions): round trip, RFC wire bytes, other transaction id.",
  'C14': "Proof: push_data/pull_data/take verified against the abstract pull step; the stream-level statement (any frame list, any chunking, any interleaving) is theorem_history, an induction over those contracts (unique decoding of the length-prefixed stream).",
